@@ -819,6 +819,21 @@ func check(c Case) hx.Verdict {
 	if strings.HasPrefix(base.Out, "---") != strings.HasPrefix(upd.Out, "---") && len(c.Path) > 0 {
 		return hx.Bad("", "document separator changed: u=%s\n`yq .`:\n%s\n`yq u`:\n%s", c.Update, base.Out, upd.Out)
 	}
+	// the same update on the same document as the second document of a stream prints the same for it (what is done
+	// to a document does not depend on the documents before it)
+	if c.Kind == "delete" && c.Doc.Trail == "" && c.Doc.LeadComment == "" && !c.Doc.Sep && !strings.HasPrefix(c.Text, "#") && !strings.HasPrefix(c.Text, "---") && !strings.HasPrefix(c.Text, "%") {
+		two := hx.Run(c.Update, "zz_first: 1\n---\n"+c.Text, hx.Opts{Unwrap: &unwrap})
+		if two.Crashed() {
+			return hx.Bad("panic-site:"+two.PanicSite, "panic %s: u=%s as second document", two.Panic, c.Update)
+		}
+		if two.Err == "" {
+			if i := strings.Index(two.Out, "\n---\n"); i >= 0 {
+				if second := two.Out[i+5:]; strings.ReplaceAll(second, "\n\n", "\n") != strings.ReplaceAll(upd.Out, "\n\n", "\n") {
+					return hx.Bad("", "the update prints something else for the same document when it is the second of a stream: u=%s\nalone:\n%s\nas second document:\n%s", c.Update, upd.Out, second)
+				}
+			}
+		}
+	}
 	labels := []string{"kind:" + c.Kind}
 	if oneLineEntries > 0 {
 		oneLineEntries = 0
